@@ -213,7 +213,16 @@ def rule_truthy(prog: Program, modules: Optional[Set[str]] = None) -> List[Insta
                     if isinstance(t, ast.Name) and t.id in optnum and still_param(t.id, n):
                         bad.append(Instance("R-TRUTHY", f"{fi.qual}#{t.id}", BAD,
                                             f"`{short(n, 60)}` tests the truth value of `{t.id}`, declared as an optional number: an explicit 0 is treated like None", fi.where(n)))
-        out.extend(bad)
+        # slice bounds are optional integers too: `s.stop or n` reads an explicit stop of 0 (an empty range) as "open"
+        for fi in prog.all_functions({mname}):
+            for n in walk_own(fi.node):
+                if isinstance(n, ast.BoolOp) and isinstance(n.op, ast.Or) and isinstance(n.values[0], ast.Attribute) and n.values[0].attr in ("start", "stop"):
+                    last = n.values[-1]
+                    if isinstance(last, ast.Constant) and last.value in (0, None):
+                        continue
+                    bad.append(Instance("R-TRUTHY", f"{fi.qual}#slice-bound:{short(n, 30)}", BAD,
+                                        f"`{short(n, 40)}` falls back when the bound is falsy: an explicit {n.values[0].attr} of 0 (s_[0:0], s_[:0] - an empty range) is treated like an open end", fi.where(n)))
+        out.extend([b for b in bad if b not in out])
         if n_params:
             out.append(Instance("R-TRUTHY", f"{mname}#truthy-scan", OK if not bad else INFO, f"{n_params} optional-number parameters, none tested by truth value", mi.relpath))
     return out
